@@ -157,19 +157,63 @@ def scenarios(tier):
                                                 scheduler='default_mem'),
                                  2 if quick else 3, 40 if quick else 900, 1,
                                  '%s/%s' % (name, tag), ai))
+    jobs.extend(updated_definitions(tier))
     jobs.sort(key=lambda j: j[5])
+    return jobs
+
+
+def updated_definitions(tier):
+    """A definition is created and run, then updated (or kept) and run
+    again in the same engine: the second run follows the current text,
+    whatever the engine cached during the first."""
+    quick = tier == 'quick'
+    T, direct = wfgen.T, wfgen.direct
+    C = wfgen.curated()
+    v1 = direct({'a': T(publish={'v': ['lit', 1]}, **{'on-success': ['b']}),
+                 'b': T(), 'c': T()}, output={'v': ['var', 'v']})
+    v2 = direct({'a': T(publish={'v': ['lit', 2]},
+                        **{'on-success': ['c'], 'on-error': ['b']}),
+                 'b': T(), 'c': T(publish={'w': ['var', 'v']})},
+                output={'v': ['var', 'v']})
+    j1 = C['diamond']
+    j2 = direct({'a': T(**{'on-success': ['b']}),
+                 'b': T(**{'on-success': ['c']}),
+                 'c': T(**{'on-success': ['d']}), 'd': T()})
+    pairs = [('v1_v2', v1, v2), ('same_text', v2, v2),
+             ('diamond_to_chain', j1, j2), ('chain_to_diamond', j2, j1)]
+    jobs = []
+    for pname, a, b in pairs:
+        keys = wfgen.action_keys(b)
+        assigns = [{k: ['S'] for k in keys},
+                   {k: ['E' if k == keys[0] else 'S'] for k in keys}]
+        wres = {k: ['E' if k == keys[-1] else 'S']
+                for k in wfgen.action_keys(a)}
+        for res in assigns:
+            tag = ''.join(res[k][0] for k in sorted(res))
+            for cc in (False, True):
+                scn = wfscn.ProgScenario(
+                    'updated/%s/%s/%s' % (pname, tag,
+                                          'evict' if cc else 'cached'),
+                    b, results=res, clear_caches=cc,
+                    warmup={'prog': a, 'results': wres})
+                if not scn.model()['confluent']:
+                    continue
+                jobs.append((scn, None if quick else None,
+                             40 if quick else 900, 1,
+                             'updated/%s/%s' % (pname, tag), -1))
     return jobs
 
 
 def main(tier):
     rep = common.Report(PROP, tier)
     jobs = scenarios(tier)
-    deadline = time.time() + (200 if tier == 'quick' else 1500)
+    deadline = time.time() + (270 if tier == 'quick' else 1500)
     res = common.parallel_map(common.explore_job, [j[:4] for j in jobs],
                               deadline=deadline)
     for klass in ('bundled', 'generated'):
         idx = [i for i, j in enumerate(jobs)
                if j[4].startswith('bundled/') == (klass == 'bundled')]
+        # (updated/... scenarios are counted with the generated ones)
         rep.add_explore_results([jobs[i] for i in idx],
                                 [res[i] for i in idx], klass)
     # differential: within one scenario and across cache modes
